@@ -95,3 +95,15 @@ Example C02_example_failure : unify empty_env (Cmp "f" [Atom "a"]) (Cmp "f" [Ato
 Proof. reflexivity. Qed.
 Example C02_example_sto : match unify empty_env (Var 0) (Cmp "f" [Var 0]) with UOk e => poisoned e = true | _ => False end.
 Proof. vm_compute. reflexivity. Qed.
+
+(** clause-head unification: the Get instructions that the compiler emits for a
+    head argument, run by the machine against a goal argument, compute the same
+    solution set as unifying the argument with the head argument renamed by the
+    activation's frame (Proofs/HeadExec.v; the statement for whole clause
+    activations is C10_head_code_is_unification) *)
+From PV Require Import Model.Clause Proofs.HeadExec.
+Theorem C02_clause_head_unification :
+  forall t cvs cvs1 code, compile_head_arg t cvs = (cvs1, code) -> wf_term t = true ->
+    forall ext vb a, get_spec code vb [a] [inst (cvs1 ++ ext) vb t].
+Proof. exact head_arg_get_spec. Qed.
+Print Assumptions C02_clause_head_unification.
